@@ -1,0 +1,17 @@
+//go:build verif
+
+package ast
+
+// Verification hook H3 (build tag "verif"): the accesses of the shared regex
+// group counter, observed at the place they happen.  With the tag off none
+// of this exists.
+
+// VerifCgnHook receives kind ("reset", "inc", "end") and the counter value
+// right after the access.  It may block (a scheduler gate) or yield.
+var VerifCgnHook func(kind string, value int)
+
+func verifCgn(kind string) {
+	if VerifCgnHook != nil {
+		VerifCgnHook(kind, capture_group_number)
+	}
+}
